@@ -33,7 +33,7 @@ def cases(ctx):
         # mostly keys that already signed for other trees (the implementation side re-uses one object per secret)
         priv = rng.choice(pool[want_odd]) if rng.random() < 0.8 else priv_with_parity(rng, want_odd)
         pub = priv.get_public_key()
-        digest = G.rbytes(rng, 32)
+        digest = G.rbytes(rng, 32) if rng.random() < 0.7 else bytes(rng.choice([1, 2])) + G.rbytes(rng, 30)
         for ht in ([rng.choice(TYPES)] if rng.random() < 0.8 else [0, rng.choice(TYPES[1:])]):
             for tweak in (1, 0):
                 prog, odd = pub.to_taproot_hex(TT.scripts_py(s))
